@@ -238,7 +238,7 @@ const EV_NAMES: [&str; 8] = [
     "outbound_open_delayed_by_limit",
     "reset_frames_checked_on_wire",
     "drain_suffixes_run",
-    "unused",
+    "reserved",
     "block_streams_fully_delivered_in_drain",
 ];
 fn ev(i: usize) {
@@ -847,7 +847,9 @@ pub fn run(ctx: &Ctx) -> Outcome {
             out.count("configs", 1);
         }
         for (i, n) in EV_NAMES.iter().enumerate() {
-            out.count(n, EVENTS[i].load(Relaxed));
+            if *n != "reserved" {
+                out.count(n, EVENTS[i].load(Relaxed));
+            }
         }
         out
     });
